@@ -212,6 +212,13 @@ def run(tier, seed):
         api.verify(S.user_set(f), rep, options=OPTS, quiet=True)
         api.verify(S.percpu_getitem(f), rep, quiet=True)
     api.verify(S.percpu_getitem("x"), rep, quiet=True, replay=native_percpu_x)
+    # a fixed-point variable written from Python: the raw 64-bit integer is the
+    # scaled decimal (C02's contract of ArrayGlobalVarDesc.__set__, re-proved
+    # here: symbolic under the IEEE model, and concrete samples of both signs)
+    from contracts import c02_fixed as S2
+    from props import c02
+    for c in [S2.x_set] + [S2.x_set_sample(k) for k in S2.SAMPLES]:
+        api.verify(c, rep, quiet=True, replay=c02.native_conv)
     jobs, texts = program_side(rep, tier)
     merged = parallel.aggregate(parallel.discharge(jobs))
     rep.extra["vc_queries"] = rep.extra.get("vc_queries", 0) + len(jobs)
